@@ -57,7 +57,7 @@ func runIdnJobs(g *graph.G, jobs []*idnJob) {
 		go func(j *idnJob) {
 			defer wg.Done()
 			defer func() { <-sem }()
-			j.res, j.err = idn.Replay(g, j.walk, os.Getenv("VERIF_SCRATCH"), j.depth, j.seed, j.force)
+			j.res, j.err = idn.Replay(g, j.walk, os.Getenv("VERIF_SCRATCH"), j.depth, j.seed, j.force, idn.InProc{})
 		}(j)
 	}
 	wg.Wait()
@@ -203,7 +203,7 @@ func idnCampaign(r *ev.Run, prop string) {
 			// reproduce twice
 			ok := 0
 			for k := 0; k < 2; k++ {
-				r2, err := idn.Replay(g, j.walk, os.Getenv("VERIF_SCRATCH"), j.depth, j.seed, j.force)
+				r2, err := idn.Replay(g, j.walk, os.Getenv("VERIF_SCRATCH"), j.depth, j.seed, j.force, idn.InProc{})
 				if err == nil {
 					for _, d2 := range r2.Divs {
 						if d2.Aspect == d.Aspect {
